@@ -340,6 +340,7 @@ def step (d : DState) (line : String) : DState × String :=
   | ["Q", m] => ({ d with q := if m == "none" then Quirks.none else Quirks.current }, "ok")
   | ["R"] => ({ d with st := State.init, memo := {}, slack := 0 }, "ok")
   | "MW" :: keys :: acts => (d, runScenario acts (parseNatList keys))
+  | "MWO" :: keys :: steps => (d, runScenarioObs steps (parseNatList keys))
   | ["N", conn, cid] =>
     match conn.toNat?, cid.toInt? with
     | some c, some i => ({ d with st := d.st.connect c i }, "ok")
